@@ -11,7 +11,8 @@ package main
 //  (1) termination: the compiler must complete; a program for which EVERY explored schedule of the
 //      compiler ends in an empty enabled set (proven blocked-forever state, gosched explorer) is a hang;
 //      it is re-run in a fresh process before it is reported;
-//  (2) two compilations (two processes) emit identical assembly and bondmachine JSON;
+//  (2) chanCompilations independent compilations (separate processes, same compiler schedule) emit
+//      identical assembly and bondmachine JSON;
 //  (3) semantics at the ISA level: a multi-processor model of the emitted assembly (per processor
 //      ISA model of isa.go + rendezvous channels wired as the saved bondmachine wires them) must write
 //      the same values to every output as a small-step reference evaluator of the source with Go
@@ -711,12 +712,22 @@ func asmListing(set map[string]string) string {
 	return strings.Join(parts, " | ")
 }
 
-// judgeChannel: c1 / c2 are the two compilations (directories p.dir and p.dir+"-again").
-func judgeChannel(xw *execWorker, p *semProg, c1, c2 compiled) *semOutcome {
+const chanCompilations = 12 // independent compilations of every channel program (directories p.dir, p.dir-again1..11): Go iterates a two entry map in the "other" order only about once in eight times
+
+func chanDirSuffix(i int) string {
+	if i == 0 {
+		return ""
+	}
+	return fmt.Sprintf("-again%d", i)
+}
+
+// judgeChannel: cs are the independent compilations of p (see chanDirSuffix).  The result may carry a
+// second outcome in Extra (artefacts differ AND one of the variants is wrong).
+func judgeChannel(xw *execWorker, p *semProg, cs []compiled) *semOutcome {
 	oc := &semOutcome{Prog: p}
 	logb, _ := os.ReadFile(filepath.Join(p.dir, ".c12.stdout"))
 	oc.Log = string(logb)
-	for _, c := range []compiled{c1, c2} {
+	for _, c := range cs {
 		switch c.Status {
 		case "panic":
 			oc.Class, oc.Detail = "compile-panic", c.Panic
@@ -728,9 +739,12 @@ func judgeChannel(xw *execWorker, p *semProg, c1, c2 compiled) *semOutcome {
 			return oc
 		}
 	}
-	set1, set2 := readAsmSet(p.dir), readAsmSet(p.dir+"-again")
-	oc.Asm = asmListing(set1)
-	if _, ok := set1["bm.json"]; !ok {
+	sets := make([]map[string]string, len(cs))
+	for i := range cs {
+		sets[i] = readAsmSet(p.dir + chanDirSuffix(i))
+	}
+	oc.Asm = asmListing(sets[0])
+	if _, ok := sets[0]["bm.json"]; !ok {
 		if p.Expect == "rejected" {
 			oc.Class = "rejected-as-expected"
 		} else {
@@ -742,57 +756,106 @@ func judgeChannel(xw *execWorker, p *semProg, c1, c2 compiled) *semOutcome {
 		oc.Class = "accepted-unexpectedly"
 		return oc
 	}
-	// (2) identical artefacts across two compilations
-	var names []string
-	for n := range set1 {
-		names = append(names, n)
-	}
-	for n := range set2 {
-		if _, ok := set1[n]; !ok {
-			names = append(names, n)
-		}
-	}
-	sort.Strings(names)
-	for _, n := range names {
-		if set1[n] != set2[n] {
-			oc.Class = "artefacts-differ-between-two-compilations"
-			oc.Artefact = artefactKind(n)
-			oc.Detail = fmt.Sprintf("%s differs between two compilations of the same program; first: %s ; second: %s", n, asmListing(set1), asmListing(set2))
-			return oc
-		}
-	}
 	// messages of the machine assembler (printed after the requirements dump)
 	if msg := assemblerMessage(oc.Log); msg != "" {
 		oc.Class, oc.Detail = "assembly-not-runnable", msg
 		oc.Misfit = "multi-processor"
 		return oc
 	}
-	// (3) ISA level semantics
+	// (2) identical artefacts across the compilations: the assembly may differ, and the bondmachine
+	// JSON may differ between compilations whose assembly is identical (two different causes)
+	asmKey := func(set map[string]string) string {
+		c := map[string]string{}
+		for n, v := range set {
+			if n != "bm.json" {
+				c[n] = v
+			}
+		}
+		return fmt.Sprint(c)
+	}
+	var differ *semOutcome
+	addDiffer := func(kind, what string, i, j int) {
+		d := &semOutcome{Prog: p, Log: oc.Log, Asm: oc.Asm, Class: "artefacts-differ-between-two-compilations", Artefact: kind}
+		d.Detail = fmt.Sprintf("%s between compilation %d and %d of the same program (same compiler schedule); %d: %s links %s ; %d: %s links %s", what, i+1, j+1, i+1, asmListing(sets[i]), linksOf(sets[i]), j+1, asmListing(sets[j]), linksOf(sets[j]))
+		d.Extra = differ
+		differ = d
+	}
+	asmDone, bmDone := false, false
+	for i := 0; i < len(sets); i++ {
+		for j := i + 1; j < len(sets); j++ {
+			same := asmKey(sets[i]) == asmKey(sets[j])
+			if !same && !asmDone {
+				asmDone = true
+				addDiffer("assembly", "the assembly differs", i, j)
+			}
+			if same && sets[i]["bm.json"] != sets[j]["bm.json"] && !bmDone {
+				bmDone = true
+				addDiffer("machine-json", "the bondmachine JSON (Shared_links: which shared object each local channel index is wired to) differs while the assembly is identical", i, j)
+			}
+		}
+	}
+	// (3) ISA level semantics of every distinct variant
 	ref := chanRefEval(p.Source, p.Rsize)
 	if ref.Err != "" {
 		oc.Class, oc.Detail = "harness:evaluator", ref.Err
 		return oc
 	}
-	mp := runMP(p.dir, oc.Log, p.Rsize)
-	oc.ExpectedMP, oc.GotMP = ref.Outs, mp.Outs
-	if strings.HasPrefix(mp.Status, "artefacts") {
-		oc.Class, oc.Detail = "harness:artefacts", mp.Status
-		return oc
-	}
-	if strings.HasPrefix(mp.Status, "isa-model") {
-		oc.Class, oc.Detail = "codegen-mismatch", fmt.Sprintf("the emitted assembly cannot be interpreted (%s)", mp.Status)
-		return oc
+	oc.ExpectedMP = ref.Outs
+	var wrong *semOutcome
+	seen := map[string]bool{}
+	for i := range sets {
+		key := fmt.Sprint(sets[i])
+		if seen[key] {
+			continue
+		}
+		seen[key] = true
+		dir := p.dir + chanDirSuffix(i)
+		mp := runMP(dir, oc.Log, p.Rsize)
+		if i == 0 {
+			oc.GotMP = mp.Outs
+		}
+		if strings.HasPrefix(mp.Status, "artefacts") {
+			oc.Class, oc.Detail = "harness:artefacts", mp.Status
+			return oc
+		}
+		bad := ""
+		if strings.HasPrefix(mp.Status, "isa-model") {
+			bad = fmt.Sprintf("the emitted assembly cannot be interpreted (%s)", mp.Status)
+		} else if !outMapsEqual(ref.Outs, mp.Outs) || ref.Blocked != mp.Blocked {
+			bad = fmt.Sprintf("source (Go channel semantics, run to quiescence) writes %s with %d goroutines blocked forever; the emitted assembly under the multi-processor ISA model writes %s with %d processors blocked forever", fmtOutMap(ref.Outs), ref.Blocked, fmtOutMap(mp.Outs), mp.Blocked)
+		}
+		if bad != "" && wrong == nil {
+			wrong = &semOutcome{Prog: p, Log: oc.Log, Class: "codegen-mismatch", ExpectedMP: ref.Outs, GotMP: mp.Outs}
+			wrong.Asm = asmListing(sets[i]) + " | channel wiring (Shared_links) " + linksOf(sets[i])
+			wrong.Detail = fmt.Sprintf("compilation %d of %d: %s", i+1, len(sets), bad)
+		}
 	}
 	// hardware attempt (counted, never compared: see the header)
 	if bmj, err := os.ReadFile(filepath.Join(p.dir, "bm.json")); err == nil {
 		h := xw.runBM(bmj)
 		oc.HDLNote = h.Status + ": " + h.Detail
 	}
-	if outMapsEqual(ref.Outs, mp.Outs) && ref.Blocked == mp.Blocked {
-		oc.Class = "ok"
-		return oc
+	switch {
+	case differ != nil:
+		differ.HDLNote, differ.ExpectedMP, differ.GotMP = oc.HDLNote, oc.ExpectedMP, oc.GotMP
+		if wrong != nil {
+			last := differ
+			for last.Extra != nil {
+				last = last.Extra
+			}
+			last.Extra = wrong
+		}
+		return differ
+	case wrong != nil:
+		wrong.HDLNote = oc.HDLNote
+		return wrong
 	}
-	oc.Class = "codegen-mismatch"
-	oc.Detail = fmt.Sprintf("source (Go channel semantics, run to quiescence) writes %s with %d goroutines blocked forever; the emitted assembly under the multi-processor ISA model writes %s with %d processors blocked forever", fmtOutMap(ref.Outs), ref.Blocked, fmtOutMap(mp.Outs), mp.Blocked)
+	oc.Class = "ok"
 	return oc
+}
+
+func linksOf(set map[string]string) string {
+	var bm struct{ Shared_links [][]int }
+	json.Unmarshal([]byte(set["bm.json"]), &bm)
+	return fmt.Sprint(bm.Shared_links)
 }
